@@ -29,23 +29,17 @@ def validate(records, name, rep=None, workers=12):
     (probes need not be sorted) -> {id: (why, index of failing probe or None)}
     with the probe list as validated (sorted) under key 'sorted' in record.
     """
-    tf = os.path.join(tmp_dir(name), 'postrace.ndjson')
-    with open(tf, 'w') as f:
-        for r in records:
-            pr = sorted(r['probes'], key=lambda p: p[0])
-            r['sorted'] = pr
-            f.write(json.dumps({
-                'id': r['id'], 'cls': [code(c) for c in r['text']],
-                'probes': [[p[0], p[1], p[2], bool(p[3])] for p in pr]})
-                + '\n')
-    cfg = 'SPECIFICATION Spec\nINVARIANT Verdict\n'
-    tr = run_tlc('PosTrace', cfg='PosTrace.cfg', cfg_text=cfg,
-                 modules={'Dummy_': '---- MODULE Dummy_ ----\n====\n'},
-                 workers=workers, env={'TRACE_FILE': tf}, heap='8g')
-    if rep is not None:
-        rep.add_tlc(tr)
+    trecs = []
+    for r in records:
+        pr = sorted(r['probes'], key=lambda p: p[0])
+        r['sorted'] = pr
+        trecs.append({
+            'id': r['id'], 'cls': [code(c) for c in r['text']],
+            'probes': [[p[0], p[1], p[2], bool(p[3])] for p in pr]})
+    from common import validate_trace
+    tlines = validate_trace('PosTrace', trecs, name, rep, chunk=5000)
     out = {}
-    for line in tr.lines:
+    for line in tlines:
         i, why, k = json.loads(line)
         out[i] = (why, k - 1)
     if len(out) != len(records):
